@@ -86,6 +86,7 @@ def rank_unfold(masks, serv, p):
 
 def bit(ma, length, i):
     """bit i of the bitmap (0 <= i < 8*length)"""
+    i = z3.IntVal(i) if isinstance(i, int) else i
     octet = z3.Select(ma, length - 1 - i / 8)
     b = i % 8
     r = has_bit(octet, 128)
